@@ -36,7 +36,7 @@ CHECKS = {
         note="shares R-CONSUMED/R-BOXHDR/R-AUXBOX with C10 and R-EOF-* with C11; intraprocedural",
         ref="DESIGN.md section 8.6"),
     "C10": dict(
-        technique="typestate transition-table extraction from MIR and comparison with the container-format reference; guard reconstruction; constant-propagating walk of the header parser's decision tree; must-pass-through (consumed counter; tail move after feed_bytes in the read loops); registry of repair guards (reserved-prefix byte string, brob size facts)",
+        technique="typestate transition-table extraction from MIR and comparison with the container-format reference; guard reconstruction; constant-propagating walk of the header parser's decision tree; must-pass-through (consumed counter; tail move after feed_bytes in the read loops); registry of repair guards (reserved-prefix byte string, brob size facts); evaluation of the box header parser from MIR on crafted headers against the ISO BMFF size rules",
         text="Decides the rejection clause and the size arithmetic for all layouts and chunkings: the jxlc/jxlp transition table equals "
              "the reference (duplicate/out-of-order/late codestream boxes -> error), undersized jxlp/brob boxes and compressed reserved "
              "types are rejected before the unchecked subtractions, the header parser is prefix-closed for the 64-bit size marker, and the "
